@@ -104,6 +104,21 @@ func C05(ctx *core.Ctx, r *core.Report) {
 	c05FormatCoverage(ctx, r)
 	c05NoCrash(ctx, r)
 	c05MinMax(ctx, r)
+	// the comparison of a value with a range bound is made on exact numbers
+	var rn []*ssa.Function
+	for _, f := range ctx.RepoFuncs() {
+		if core.FnPkgPath(f) == core.Full("meta") && f.Signature.Recv() != nil && core.TypeName(core.Deref(f.Signature.Recv().Type())) == "meta.RangeNumber" {
+			rn = append(rn, f)
+		}
+		if f.Parent() != nil && f.Parent().Signature.Recv() != nil && core.TypeName(core.Deref(f.Parent().Signature.Recv().Type())) == "meta.RangeNumber" {
+			rn = append(rn, f)
+		}
+	}
+	nc, _ := lossyConversions(ctx, r, rn, c05ConvTriage)
+	r.Floor("lossy-convert(RangeNumber)", nc, 4)
+	fcs := scopeFuncs(ctx, "node", "field_constraints.go")
+	capturedErrorKept(ctx, r, append(fcs, rn...), 1)
+	loopErrorTested(ctx, r, fcs, 2)
 }
 
 // c05Installed: the field constraint is installed.
@@ -395,4 +410,12 @@ func c05MinMax(ctx *core.Ctx, r *core.Report) {
 		}
 	}
 	r.Floor("minmax-handled", n, 3)
+}
+
+var c05ConvTriage = map[string]string{
+	"meta.RangeNumber.getFloat64/int64→float64":  "used only to compare an integer-written bound with a decimal64 value, which the library itself carries as float64 (the C10 known finding on decimal64): the comparison is as exact as the value's own representation",
+	"meta.RangeNumber.getFloat64/uint64→float64": "as above; an unsigned bound is kept only for numbers beyond int64, which no decimal64 reaches",
+	"meta.RangeNumber.getInt64/float64→int64":    "reached only when a range bound is written with a fraction on an integer type, which RFC 7950 9.2.4 does not allow (bounds are of the restricted type)",
+	"meta.RangeNumber.getUnit64/float64→uint64":  "as above for uint64; the operand is tested >= 0 on the line before",
+	"meta.RangeNumber.getUnit64/int64→uint64":    "the operand *n.integer is tested >= 0 in the same condition (a second load of the same immutable field, which the interval reasoning does not identify with the first)",
 }
